@@ -37,6 +37,7 @@ Pos == [i \in 1..Len(Ev.pos) |-> <<Ev.pos[i][1], Ev.pos[i][2]>>]
 TUpdateState ==
   /\ IsEvent("update_state")
   /\ LET ref == Ref(Pos, pool[Ev.st]) IN
+     /\ Chk("extra_state_information_of_user_defined_nodes_is_carried_over", Ev.extras_kept)
      /\ Chk("returns_state_of_direct_assignment_plus_full_update",
             \A i \in Node : Ev.ret_val[i] = Eff(ref[1])[i])
      /\ Chk("returned_state_is_fully_up_to_date", \A i \in Node : Ev.ret_outd[i] = Outd(ref[2])[i])
@@ -98,5 +99,13 @@ TPlain ==
   /\ Chk("log_prob_reads_the_state", Ev.lp = Ev.expected_lp)
   /\ UNCHANGED pool /\ Same /\ Step
 
-TNext == TFailedConstruction \/ TState \/ TFailedCall \/ TUpdateState \/ TExtract \/ TUserAssign \/ TNumeric \/ TPlain
+\* the dataclass interface under jit and vmap: what comes back is what the eager call returns
+TDataclassJit ==
+  /\ IsEvent("dataclass_jit")
+  /\ Chk("dataclass_state_crosses_jit_and_vmap_completely",
+         /\ Ev.crash = "" /\ Ev.jit = Ev.eager /\ Ev.vmap_first = Ev.eager /\ Ev.eager.ybar # "missing"
+         /\ Close(Ev.jit_lp, Ev.eager_lp))
+  /\ UNCHANGED pool /\ Same /\ Step
+
+TNext == TDataclassJit \/ TFailedConstruction \/ TState \/ TFailedCall \/ TUpdateState \/ TExtract \/ TUserAssign \/ TNumeric \/ TPlain
 =============================================================================
